@@ -9,6 +9,7 @@
 // -include alloc_hook.h (variant "fi"): only allocations requested by libvna code
 // are counted and failed (malloc/calloc/realloc/strdup/vasprintf).
 #include "pbt.hpp"
+#include <sys/mman.h>
 #include <functional>
 #include <memory>
 #include <map>
@@ -47,8 +48,12 @@ struct World {
     std::string text[4];
     std::string tmp[4];
     std::string digest;
+    int obs_fd = -1;          // memory file the observations let vnacal_save write into
+    std::string obs_path;
 
     World() {
+        obs_fd = memfd_create("c12-obs", 0);
+        if (obs_fd >= 0) obs_path = "/proc/self/fd/" + std::to_string(obs_fd);
         for (int &p : par) p = -1;
         for (int &x : ci) x = -1;
         const char *td = getenv("PBT_TMPDIR"); if (!td) td = "/tmp";
@@ -63,6 +68,7 @@ struct World {
         for (auto &p : prop) if (p) { (void)vnaproperty_delete(&p, "."); p = nullptr; }
         for (auto &p : str) { free(p); p = nullptr; }
         for (auto &t : tmp) unlink(t.c_str());
+        if (obs_fd >= 0) close(obs_fd);
         verif_fi_resume();
     }
     void obs(const char *fmt, ...) __attribute__((format(printf, 2, 3))) {
@@ -76,6 +82,34 @@ struct World {
 // Observable state only: getters, text of saved files, numeric outputs (hex floats:
 // the faulted and the fault-free run perform the same arithmetic).  No addresses, no
 // handle values.
+// The bytes the object saves are part of its observable state: the saver is what walks the internal
+// format vector, data and impedance vectors.  The text is put between SAVE markers so that the runner can
+// tell it from the getter lines.  The observation must not change the object: a file type of AUTO and a
+// format string rewritten by the saver (default format, bare ri/ma/dB resolved) are put back afterwards.
+static const char SAVE_BEGIN[] = "<<SAVE\n", SAVE_END[] = "SAVE>>\n";
+static void dump_vd_save(World &w, vnadata_t *v) {
+    if (vnadata_get_type(v) == VPT_UNDEF || vnadata_get_frequencies(v) < 1 || vnadata_get_rows(v) < 1 || vnadata_get_columns(v) < 1) return;
+    vnadata_filetype_t ft = vnadata_get_filetype(v);
+    const char *f0 = vnadata_get_format(v);
+    bool had = f0 != nullptr; std::string fmt = had ? f0 : "";
+    if (ft == VNADATA_FILETYPE_AUTO) (void)vnadata_set_filetype(v, VNADATA_FILETYPE_NPD);
+    char *buf = nullptr; size_t len = 0;
+    FILE *fp = open_memstream(&buf, &len);
+    if (fp) {
+        errno = 0;
+        int rc = vnadata_fsave(v, fp, "observation");
+        int e = errno;
+        fclose(fp);
+        w.digest += SAVE_BEGIN;
+        if (rc == 0) w.digest.append(buf, len); else w.obs("fsave: rc=%d errno=%d", rc, e);
+        w.digest += SAVE_END;
+        free(buf);
+    }
+    const char *f1 = vnadata_get_format(v);
+    if ((f1 != nullptr) != had || (f1 && fmt != f1)) (void)vnadata_set_format(v, had ? fmt.c_str() : nullptr);
+    if (ft == VNADATA_FILETYPE_AUTO) (void)vnadata_set_filetype(v, VNADATA_FILETYPE_AUTO);
+}
+
 static void dump_vd(World &w, const char *tag, const vnadata_t *v) {
     if (!v) { w.obs("%s: (none)", tag); return; }
     int F = vnadata_get_frequencies(v), R = vnadata_get_rows(v), C = vnadata_get_columns(v);
@@ -96,6 +130,7 @@ static void dump_vd(World &w, const char *tag, const vnadata_t *v) {
         for (int p = 0; p < P; p++) { dcx z = vnadata_get_z0(v, p); snprintf(b, sizeof b, " %a%+ai", re_(z), im_(z)); line += b; }
         w.digest += line; w.digest += '\n';
     }
+    dump_vd_save(w, (vnadata_t *)v);
 }
 
 static void dump_prop_rec(World &w, const vnaproperty_t *node, int depth) {
@@ -125,8 +160,7 @@ static void dump_prop(World &w, const char *tag, const vnaproperty_t *root) { w.
 static void dump_vc(World &w, const char *tag, vnacal_t *vcp) {
     if (!vcp) { w.obs("%s: (none)", tag); return; }
     int end = vnacal_get_calibration_end(vcp);
-    const char *fn = vnacal_get_filename(vcp);
-    w.obs("%s: end=%d filename=%s", tag, end, fn ? fn : "(null)");
+    w.obs("%s: end=%d", tag, end);
     errno = 0;
     dump_prop(w, " global-properties", vnacal_property_get_subtree(vcp, -1, "."));
     for (int ci = 0; ci < end; ci++) {
@@ -141,7 +175,21 @@ static void dump_vc(World &w, const char *tag, vnacal_t *vcp) {
         errno = 0;
         dump_prop(w, "  properties", vnacal_property_get_subtree(vcp, ci, "."));
     }
+    // what vnacal_save writes (error terms, properties), into a memory file.  vnacal_get_filename is the one
+    // getter this changes; it is therefore observed only by the explicit save / load steps.
+    if (w.obs_fd >= 0) {
+        errno = 0;
+        int rc = vnacal_save(vcp, w.obs_path.c_str());
+        int e = errno;
+        w.digest += SAVE_BEGIN;
+        if (rc == 0) {
+            char b[8192]; ssize_t n; off_t off = 0;
+            while ((n = pread(w.obs_fd, b, sizeof b, off)) > 0) { w.digest.append(b, (size_t)n); off += n; }
+        } else w.obs("vnacal_save: rc=%d errno=%d", rc, e);
+        w.digest += SAVE_END;
+    }
 }
+static void obs_filename(World &w, vnacal_t *vcp) { const char *fn = vcp ? vnacal_get_filename(vcp) : nullptr; w.obs("filename=%s", fn ? fn : "(null)"); }
 
 static std::string slurp_file(const std::string &path) {
     std::string s; FILE *f = fopen(path.c_str(), "r");
@@ -665,8 +713,8 @@ static void script_vnacal_parameters(Script &S) {
 #define VN_SETF(i, fv) S.add("vnacal_new_set_frequency_vector", true, [](World &w) { RET_INT0(w, vnacal_new_set_frequency_vector(w.vn[i], (fv).data())); })
 #define VN_SOLVE(i) S.add("vnacal_new_solve", true, [](World &w) { RET_INT0(w, vnacal_new_solve(w.vn[i])); })
 #define VC_ADDCAL(vni, cislot, name) S.add("vnacal_add_calibration", true, [](World &w) { RET_INTN(w, vnacal_add_calibration(w.vc[0], name, w.vn[vni]), w.ci[cislot]); }, OBS_VC(0))
-#define VC_SAVE(i) S.add("vnacal_save", true, [](World &w) { RET_INT0(w, vnacal_save(w.vc[i], w.tmp[3].c_str())); }, [](World &w) { w.digest += slurp_file(w.tmp[3]); dump_vc(w, "vc", w.vc[i]); })
-#define VC_LOAD(i) S.add("vnacal_load", true, [](World &w) { RET_PTR(w, vnacal_load(w.tmp[3].c_str(), errlog_fn, &w.log), w.vc[i]); }, OBS_VC(i))
+#define VC_SAVE(i) S.add("vnacal_save", true, [](World &w) { RET_INT0(w, vnacal_save(w.vc[i], w.tmp[3].c_str())); }, [](World &w) { if (!w.probing) obs_filename(w, w.vc[i]); w.digest += slurp_file(w.tmp[3]); dump_vc(w, "vc", w.vc[i]); })
+#define VC_LOAD(i) S.add("vnacal_load", true, [](World &w) { RET_PTR(w, vnacal_load(w.tmp[3].c_str(), errlog_fn, &w.log), w.vc[i]); }, [](World &w) { if (!w.probing) obs_filename(w, w.vc[i]); dump_vc(w, "vc", w.vc[i]); })
 
 static const cd DUT_S[2][2] = {{cd(0.2, 0.1), cd(0.6, -0.2)}, {cd(0.65, -0.15), cd(-0.1, 0.3)}};
 static Sfun S_dut() { return S_const(DUT_S[0][0], DUT_S[0][1], DUT_S[1][0], DUT_S[1][1]); }
@@ -1300,6 +1348,37 @@ static void script_vnacal_shared_unknown(Script &S) {
     VC_FREE(0);
 }
 
+// --- S21: replacing the format of an object that already has one with k fields by one with j fields
+//     (j < k, j > k, none), directly and through the #:parameters line of an NPD text loaded into it.
+//     Every observation includes the bytes the object saves (dump_vd), also after each failed call.
+static void script_vnadata_format_replace(Script &S) {
+    S.name = "vnadata_format_replace";
+    fill_vd_steps(S, 0, VPT_S, 2, 3, FREQ3);
+    S.add("vnadata_set_filetype", true, [](World &w) { RET_INT0(w, vnadata_set_filetype(w.vd[0], VNADATA_FILETYPE_NPD)); }, OBS_VD(0));
+#define SETFMT(f) S.add("vnadata_set_format", true, [](World &w) { RET_INT0(w, vnadata_set_format(w.vd[0], f)); }, OBS_VD(0))
+    SETFMT("Sri,Zri,Yma");                 // none -> 3 fields
+    SETFMT("Sma");                         // 3 -> 1
+    SETFMT("Sri,Zri,Yma,Zinri");           // 1 -> 4
+    S.add("vnadata_fsave", true, [](World &w) { return do_fsave(w, 0, 0, "four.npd"); }, [](World &w) { w.obs("npd text:\n%s", w.text[0].c_str()); });
+    SETFMT("SdB,IL");                      // 4 -> 2
+    SETFMT("Tri");                         // 2 -> 1
+    S.add("vnadata_fsave", true, [](World &w) { return do_fsave(w, 0, 1, "one.npd"); }, [](World &w) { w.obs("npd text:\n%s", w.text[1].c_str()); });
+    S.add("vnadata_fload", true, [](World &w) { return do_fload(w, 0, w.text[0], "four.npd"); }, OBS_VD(0));   // object has 1 field, file has 4
+    S.add("vnadata_fload", true, [](World &w) { return do_fload(w, 0, w.text[1], "one.npd"); }, OBS_VD(0));    // object has 4 fields, file has 1
+    SETFMT("ma,Zri,PRC,VSWR,RL");          // 1 -> 5, first one without parameter type
+    S.add("vnadata_cksave", true, [](World &w) { RET_INT0(w, vnadata_cksave(w.vd[0], "x.npd")); }, OBS_VD(0));
+    S.add("vnadata_set_format", true, [](World &w) { RET_INT0(w, vnadata_set_format(w.vd[0], nullptr)); }, OBS_VD(0));   // 5 -> none
+    SETFMT("Yri,Sma");                     // none -> 2
+    // a second object loads the 4-field text over its own 2-field format
+    S.add("vnadata_alloc", true, [](World &w) { RET_PTR(w, vnadata_alloc(errlog_fn, &w.log), w.vd[1]); });
+    S.add("vnadata_convert", true, [](World &w) { RET_INT0(w, vnadata_convert(w.vd[0], w.vd[1], VPT_Z)); }, OBS_VD(1));    // copies the 2-field format
+    S.add("vnadata_fload", true, [](World &w) { return do_fload(w, 1, w.text[0], "four.npd"); }, OBS_VD(1));
+    S.add("vnadata_convert", true, [](World &w) { RET_INT0(w, vnadata_convert(w.vd[0], w.vd[1], VPT_S)); }, OBS_VD(1));    // 2-field format over the loaded 4-field one
+#undef SETFMT
+    FREE_VD(1);
+    FREE_VD(0);
+}
+
 //@@MORE_SCRIPTS@@
 
 static void build_scripts() {
@@ -1314,6 +1393,7 @@ static void build_scripts() {
         script_gen_cal_family,
         script_vnaproperty_retype, script_vnaproperty_replace_root, script_vnacal_property_retype,
         script_vnacal_shared_unknown,
+        script_vnadata_format_replace,
         //@@MORE_BUILDERS@@
     };
     for (builder b : all) { g_scripts.emplace_back(); b(g_scripts.back()); }
@@ -1325,6 +1405,21 @@ struct FaultInfo {
     std::string site, func;
     std::vector<std::string> sysmsgs;
 };
+
+// remove the SAVE blocks (bytes written by the savers) from an observation, leaving the getter lines
+static std::string strip_save(const std::string &t) {
+    std::string out; size_t pos = 0;
+    for (;;) {
+        size_t b = t.find(SAVE_BEGIN, pos);
+        if (b == std::string::npos) { out.append(t, pos, std::string::npos); break; }
+        out.append(t, pos, b - pos);
+        size_t e = t.find(SAVE_END, b);
+        if (e == std::string::npos) break;
+        pos = e + sizeof SAVE_END - 1;
+    }
+    return out;
+}
+static void first_difference(const std::string &a, const std::string &b, std::string &out);
 
 static std::string base_name(const char *path) { const char *s = strrchr(path, '/'); return s ? s + 1 : path; }
 
@@ -1348,6 +1443,20 @@ static void run_script(Ctx &c, Script &S, int fault_step, long k, std::vector<lo
             if (fault_step >= 0 && (int)s < fault_step && n != S.K[s])
                 c.fail("C12.harness_nondeterministic", "script %s step %zu (%s): %ld allocations, %ld in the reference run", S.name.c_str(), s, st.fn.c_str(), n, S.K[s]);
         } else {
+            // observation of the objects BEFORE the faulted call (not part of the digest; the observation
+            // functions leave the objects unchanged): reference for the usability probe below
+            std::string before;
+            if (st.obs) {
+                verif_fi_pause();
+                std::string keep; keep.swap(w.digest);
+                w.probing = true; w.probe_bad.clear();
+                st.obs(w);
+                w.probing = false; w.probe_bad.clear();
+                before.swap(w.digest); w.digest.swap(keep);
+                w.log.clear();
+                verif_fi_resume();
+                verif_fi_reset();
+            }
             verif_fi_arm(k);
             bool failed = st.call(w);
             int err = w.err;
@@ -1387,8 +1496,17 @@ static void run_script(Ctx &c, Script &S, int fault_step, long k, std::vector<lo
                     w.probing = true; w.probe_bad.clear();
                     st.obs(w);
                     w.probing = false;
+                    std::string after; after.swap(w.digest);
                     w.digest.swap(keep);
                     verif_fi_resume();
+                    // What an object saves is a function of what its getters show (type, dimensions, frequencies,
+                    // cells, impedances, file type, format string, precisions; calibrations and property trees).
+                    // If the failed call left every getter as it was, the saved bytes must be as they were too:
+                    // a difference means the call changed state the getters do not show (half-restored vectors).
+                    if (strip_save(before) == strip_save(after) && before != after) {
+                        std::string diff; first_difference(before, after, diff);
+                        c.fail("C12.failed_call_changed_hidden_state", "script %s step %zu: %s failed cleanly when allocation %ld (%s) failed and every getter reads as before the call, but the object now saves different bytes (first: before the call, second: after the failed call): %s", S.name.c_str(), s, st.fn.c_str(), k, fi->site.c_str(), diff.c_str());
+                    }
                     PBT_CHECK(c, w.probe_bad.empty(), "C12.unusable_after_failure", "script %s step %zu: %s failed cleanly when allocation %ld (%s) failed, but the object it left behind answers nonsense: %s", S.name.c_str(), s, st.fn.c_str(), k, fi->site.c_str(), w.probe_bad.c_str());
                 }
                 // the SAME call again, without fault
